@@ -164,23 +164,23 @@ func c10Extra(w *harness.World, cr *concRun) {
 
 func c10Drivers() []concParams {
 	return []concParams{
-		{Name: "2-writers", Cfg: "default/bytewise", Clients: [][]string{{"put:a"}, {"put:b"}}, QB: 3, TB: 4, Expect: "noerr"},
-		{Name: "3-writers", Cfg: "default/bytewise", Clients: [][]string{{"put:a"}, {"put:b"}, {"put:a"}}, QB: 2, TB: 3, Expect: "noerr"},
-		{Name: "3-writers-2ops", Cfg: "default/bytewise", Clients: [][]string{{"put:a", "put:b"}, {"put:b", "w:+a,+b"}, {"del:a"}}, QB: 2, TB: 3, Expect: "noerr"},
+		{Name: "2-writers", Cfg: "roomy/bytewise", Clients: [][]string{{"put:a"}, {"put:b"}}, QB: 3, TB: 4, Expect: "noerr"},
+		{Name: "3-writers", Cfg: "roomy/bytewise", Clients: [][]string{{"put:a"}, {"put:b"}, {"put:a"}}, QB: 3, TB: 4, Expect: "noerr"},
+		{Name: "3-writers-2ops", Cfg: "roomy/bytewise", Clients: [][]string{{"put:a", "put:b"}, {"put:b", "w:+a,+b"}, {"del:a"}}, QB: 2, TB: 3, Expect: "noerr"},
 		{Name: "overflow-handoff", Cfg: "wide/bytewise", Clients: [][]string{{"put:a"}, {"putL:b"}, {"put:a"}}, QB: 2, TB: 3, Expect: "noerr"},
-		{Name: "no-merge", Cfg: "default/bytewise", NoMerge: true, Clients: [][]string{{"put:a"}, {"put:b"}, {"put:a"}}, QB: 2, TB: 3, Expect: "noerr"},
-		{Name: "writers-vs-close", Cfg: "default/bytewise", Clients: [][]string{{"put:a"}, {"put:b"}, {"close"}}, QB: 2, TB: 3},
+		{Name: "no-merge", Cfg: "roomy/bytewise", NoMerge: true, Clients: [][]string{{"put:a"}, {"put:b"}, {"put:a"}}, QB: 3, TB: 4, Expect: "noerr"},
+		{Name: "writers-vs-close", Cfg: "roomy/bytewise", Clients: [][]string{{"put:a"}, {"put:b"}, {"close"}}, QB: 3, TB: 4},
 		{Name: "overflow-handoff-vs-close", Cfg: "wide/bytewise", Clients: [][]string{{"put:a"}, {"putL:b"}, {"put:a"}, {"close"}}, QB: 2, TB: 3},
 		{Name: "overflow-handoff-vs-readonly", Cfg: "wide/bytewise", Clients: [][]string{{"put:a"}, {"putL:b"}, {"put:a"}, {"ro"}}, QB: 2, TB: 3},
 		{Name: "merged-group-fills-buffer", Cfg: "wide/bytewise", Pre: []string{"putM:a", "putE:b"}, Clients: [][]string{{"put:a"}, {"put:b"}, {"put:a"}}, QB: 2, TB: 3, Expect: "noerr"},
 		{Name: "merged-group-fills-buffer-vs-close", Cfg: "wide/bytewise", Pre: []string{"putM:a", "putE:b"}, Clients: [][]string{{"put:a"}, {"put:b"}, {"close"}}, QB: 2, TB: 3},
-		{Name: "writers-vs-tr", Cfg: "default/bytewise", Clients: [][]string{{"put:a"}, {"put:b"}, {"tr:+a,+b"}}, QB: 2, TB: 2, Expect: "noerr"},
-		{Name: "writers-vs-compact", Cfg: "default/bytewise", Pre: []string{"put:a"}, Clients: [][]string{{"put:a"}, {"put:b"}, {"cr"}}, QB: 1, TB: 2, Expect: "noerr"},
+		{Name: "writers-vs-tr", Cfg: "roomy/bytewise", Clients: [][]string{{"put:a"}, {"put:b"}, {"tr:+a,+b"}}, QB: 2, TB: 2, Expect: "noerr"},
+		{Name: "writers-vs-compact", Cfg: "roomy/bytewise", Pre: []string{"put:a"}, Clients: [][]string{{"put:a"}, {"put:b"}, {"cr"}}, QB: 2, TB: 3, Expect: "noerr"},
 		// CompactRange holds the write lock across its buffer rotation: a writer must not get in between
-		{Name: "compactrange-vs-writer", Cfg: "default/bytewise", Pre: []string{"put:a"}, Clients: [][]string{{"cr"}, {"put:b"}}, QB: 2, TB: 3, Expect: "noerr"},
+		{Name: "compactrange-vs-writer", Cfg: "roomy/bytewise", Pre: []string{"put:a"}, Clients: [][]string{{"cr"}, {"put:b"}}, QB: 2, TB: 3, Expect: "noerr"},
 		{Name: "compactrange-vs-writer-flushy", Cfg: "flushy/bytewise", Pre: []string{"put:a"}, Clients: [][]string{{"cr"}, {"put:b"}}, QB: 2, TB: 3, Expect: "noerr"},
-		{Name: "writers-vs-readonly", Cfg: "default/bytewise", Clients: [][]string{{"put:a"}, {"put:b"}, {"ro"}}, QB: 2, TB: 3},
-		{Name: "4-writers", Cfg: "default/bytewise", Clients: [][]string{{"put:a"}, {"put:b"}, {"put:a"}, {"put:b"}}, QB: 1, TB: 2, Expect: "noerr"},
+		{Name: "writers-vs-readonly", Cfg: "roomy/bytewise", Clients: [][]string{{"put:a"}, {"put:b"}, {"ro"}}, QB: 3, TB: 4},
+		{Name: "4-writers", Cfg: "roomy/bytewise", Clients: [][]string{{"put:a"}, {"put:b"}, {"put:a"}, {"put:b"}}, QB: 2, TB: 3, Expect: "noerr"},
 	}
 }
 
